@@ -85,9 +85,8 @@ KnotsShape(xs, r, v) ==
   /\ Range(r) \subseteq Range(xs)
   /\ MaxSeq(r) = MaxSeq(xs)
 KnotsFit(dir, xs, ys, ws, r, v, S, slack) ==
-  LET gx == GX(xs)
-      F  == GroupFit(dir, xs, ys, ws)
-  IN \A g \in 1..Len(gx) : Close(v[KnotOf(r, gx[g])], F[g][1], F[g][2], S, slack)
+  \E gx \in {GX(xs)} : \E F \in {GroupFit(dir, xs, ys, ws)} :          \* (singleton sets: evaluated once)
+    \A g \in 1..Len(gx) : Close(v[KnotOf(r, gx[g])], F[g][1], F[g][2], S, slack)
 KnotsOk(dir, xs, ys, ws, r, v, S, slack) ==
   KnotsShape(xs, r, v) /\ KnotsFit(dir, xs, ys, ws, r, v, S, slack)
 
